@@ -1,7 +1,7 @@
 use crate::transport::types::{EntityId, SequenceNumber};
 
 use super::super::{
-    error::RtpsMessageResult,
+    error::{RtpsMessageError, RtpsMessageResult},
     overall_structure::{
         Submessage, SubmessageHeaderRead, SubmessageHeaderWrite, TryReadFromBytes, Write,
         WriteIntoBytes,
@@ -26,7 +26,7 @@ impl HeartbeatSubmessage {
         mut data: &[u8],
     ) -> RtpsMessageResult<Self> {
         let endianness = submessage_header.endianness();
-        Ok(Self {
+        let heartbeat = Self {
             final_flag: submessage_header.flags()[1],
             liveliness_flag: submessage_header.flags()[2],
             reader_id: EntityId::try_read_from_bytes(&mut data, endianness)?,
@@ -34,7 +34,12 @@ impl HeartbeatSubmessage {
             first_sn: SequenceNumber::try_read_from_bytes(&mut data, endianness)?,
             last_sn: SequenceNumber::try_read_from_bytes(&mut data, endianness)?,
             count: Count::try_read_from_bytes(&mut data, endianness)?,
-        })
+        };
+        // RTPS 8.3.7.5.3: a HEARTBEAT with firstSN <= 0 or lastSN < firstSN - 1 is invalid
+        if heartbeat.first_sn <= 0 || heartbeat.last_sn < heartbeat.first_sn - 1 {
+            return Err(RtpsMessageError::InvalidData);
+        }
+        Ok(heartbeat)
     }
 
     pub fn final_flag(&self) -> bool {
